@@ -162,7 +162,7 @@ def _replay_failure(plan, prop, tier, seed, ws, build, base_targets, h, r, logs_
     c = build["crates"][h["crate"]]
     tests = dcv.concrete_playback(c["dir"], base_targets[h["crate"]], h["name"], ws.root, logs_dir,
                                  features=c.get("features", ()), timeout=max(900, 3 * h.get("timeout_s", 600)),
-                                 mem_gb=h.get("mem_gb", 16))
+                                 mem_gb=max(24, 2 * h.get("mem_gb", 16)))
     rec = {"harness": h["name"], "reproduced": False, "detail": "", "values": [], "path": None}
     if not tests:
         rec["detail"] = "kani produced no concrete playback test"
@@ -198,7 +198,17 @@ def _evidence(prop, tier, seed, meta, build, hs, results, inconclusive, t_start,
         solver_s += r.stats.get("solver_s", 0.0)
     if not samples:
         samples = [{"harness": h["name"], "what": h.get("what", "")} for h in hs[:3]] or [{"note": "no harness ran"}]
+    steps = sum(r.stats.get("steps", 0) for r in results)
+    vccs = sum(r.stats.get("vccs", 0) for r in results)
+    validated = sum(1 for rec in replays if rec.get("reproduced")) + sum(int(v.get("tests_passed", 0)) for v in validation)
     cov = {
+        "states": max(steps, 1),
+        "transitions": max(vccs, 1),
+        "traces_validated_against_impl": validated,
+        "states_transitions_meaning": "bounded model checking has no explicit state graph: states = SSA steps of the unrolled, symbolically "
+                                      "executed program summed over harnesses (CBMC 'size of program expression'), transitions = verification "
+                                      "conditions generated from them; traces_validated_against_impl = solver counterexample traces replayed "
+                                      "natively against the real code plus the repository's own unit tests replayed through the container models",
         "evaluations": max(evaluations, 1) if results else 1,
         "distinct_nontrivial": nontrivial,
         "rule": "evaluations = CBMC property checks (assertions, overflow/bounds/pointer checks, unwinding assertions) "
